@@ -346,7 +346,11 @@ def parseSubReq (f : List String) (rec : List String) : Option SubReq :=
     let sc := if sc = "-" then [] else sc.toList
     let rd ← rd.toNat?
     let inner ← (recGet rec "inner").bind hexStr?
-    if sc.all (fun c => c = 'a' ∨ c = 'n' ∨ c = 'u' ∨ c = 'A' ∨ c = 'N') ∧ sc.length = n ∧ rd ≤ n ∧ 1 ≤ ce.length ∧ ce.length ≤ 3 ∧ 1 ≤ se.length ∧ se.length ≤ 3 ∧ (se.filter (!·)).length ≤ 1 ∧ st.all (fun l => match l with | .D _ _ => false | _ => true) then
+    if sc.all (fun c => c = 'a' ∨ c = 'n' ∨ c = 'u' ∨ c = 'A' ∨ c = 'N' ∨ c = 'd' ∨ c = 'e') ∧
+        -- drained messages (d / e) only at the tail, and then everything before them is read
+        (let isD := fun (c : Char) => c = 'd' ∨ c = 'e'
+         let pre := sc.takeWhile (fun c => !(decide (isD c)))
+         (sc.drop pre.length).all (fun c => decide (isD c)) ∧ (pre.length = sc.length ∨ rd = pre.length) ∧ rd ≤ pre.length) ∧ sc.length = n ∧ rd ≤ n ∧ 1 ≤ ce.length ∧ ce.length ≤ 3 ∧ 1 ≤ se.length ∧ se.length ≤ 3 ∧ (se.filter (!·)).length ≤ 1 ∧ st.all (fun l => match l with | .D _ _ => false | _ => true) then
       pure ⟨st, se, ce, n, sc, rd, inner⟩
     else none
   | _ => none
@@ -361,6 +365,8 @@ def eventsOf (script : List Char) (late : Bool) (id : Nat) : List WEv :=
   | some 'A' => if late then [.cancel, .ack] else []
   | some 'N' => if late then [.cancel, .nack] else []
   | some 'u' => if late then [.cancel, .ack] else []
+  | some 'd' => if late then [.ack, .cancel] else []     -- handed out and acked while the wrapped Close drains
+  | some 'e' => if late then [.nack, .cancel] else []
   | _ => []
 
 def settleOf (script : List Char) (late : Bool) (id : Nat) : Settle :=
@@ -376,15 +382,21 @@ def modelSub (q : SubReq) : String :=
     let cl := closeSubSeq stack q.closes 0
     let closeTok := closeToks cl.1 cl.2
     let subTok := ",".intercalate ((subscribeSeq stack q.subs).map errTok)
-    if (subscribeSeq stack q.subs).all (·.isSome) then s!"sub={subTok}|recv=-|A=-|close={closeTok}|chan=-|B=-" else
+    if (subscribeSeq stack q.subs).all (·.isSome) then s!"sub={subTok}|recv=-|A=-|close={closeTok}|chan=-|drain=-|B=-" else
     let msgs : List Msg := (List.range q.n).map (fun i => { id := i, md := [("k", .raw "v")] })
-    let (got, ws) := subscribeRun q.inner stack msgs q.reads
+    let nDrain := (q.script.filter (fun c => c = 'd' ∨ c = 'e')).length
+    let (got, ws0) := subscribeRun q.inner stack (msgs.take (q.n - nDrain)) q.reads
+    let (gotD, wsD) := closeDrain q.inner stack (msgs.drop (q.n - nDrain))
+    let ws := ws0 ++ wsD
+    let drainToks := gotD.map (fun m =>
+      let st := match settleOf q.script true m.id with | .ack => "a" | .nack => "n" | .none => "-"
+      s!"{m.id}:{strHex (rawOf (mget m.md "path"))}:s:{st}")
     let recv := got.map (fun m =>
       let st := match settleOf q.script false m.id with | .ack => "a" | .nack => "n" | .none => "-"
       s!"{m.id}:{strHex (rawOf (mget m.md "path"))}:s:{st}")
     let a := countLines ((subCounts (settleOf q.script false) ws).map subKey)
     let b := countLines ((subCounts (settleOf q.script true) ws).map subKey)
-    s!"sub={subTok}|recv={sepOr recv ","}|A={a}|close={closeTok}|chan=closed|B={b}"
+    s!"sub={subTok}|recv={sepOr recv ","}|A={a}|close={closeTok}|chan=closed|drain={sepOr drainToks ","}|B={b}"
 
 /-! ### router -/
 
@@ -647,6 +659,7 @@ def monitorSub (q : SubReq) (obs : String) : String := Id.run do
   let some bS := section? secs "B" | return "bad-op"
   let some closeS := section? secs "close" | return "bad-op"
   let some chanS := section? secs "chan" | return "bad-op"
+  let some drainS := section? secs "drain" | return "bad-op"
   -- every Close call reaches the wrapped subscriber once and returns that call's own result
   let wantClose := ",".intercalate (q.closes.map (fun b => if b then "e:close" else "ok")) ++ s!"/{q.closes.length}"
   -- every call returns (a call the harness' watchdog had to give up on is reported as `stuck`)
@@ -655,7 +668,7 @@ def monitorSub (q : SubReq) (obs : String) : String := Id.run do
   -- every Subscribe call returns the wrapped subscriber's own answer for that call
   if subS ≠ ",".intercalate (q.subs.map (fun b => if b then "e:sub" else "ok")) then return "violated:subscribe_error_passes"
   if q.subs.all (·) then
-    if recvS ≠ "-" then return "violated:subscribe_error_passes"
+    if recvS ≠ "-" ∨ drainS ≠ "-" then return "violated:subscribe_error_passes"
     if aS ≠ "-" ∨ bS ≠ "-" then return "violated:metrics_subscribe_once"
     if closeS ≠ wantClose then return "violated:close_each_call_passes"
     return "ok"
@@ -681,6 +694,22 @@ def monitorSub (q : SubReq) (obs : String) : String := Id.run do
       if act = 'a' then na := na + 1 else if act = 'n' then nn := nn + 1
       else if act = 'N' then nlN := nlN + 1 else nu := nu + 1     -- late acks: u (after Close) and A (after cancel)
     | _ => return "bad-op"
+  -- every message the wrapped subscriber handed out while its Close was running (the consumer still reading) reaches
+  -- the consumer: same object, transformed once, in order, and settling it settles the wrapped subscriber's message
+  let nDrain := (q.script.filter (fun c => c = 'd' ∨ c = 'e')).length
+  let drained := splitOr drainS ","
+  if drained.length ≠ nDrain then return "violated:every_message_once"
+  for (j, r) in (List.range drained.length).zip drained do
+    match r.splitOn ":" with
+    | [id, p, same, st] =>
+      let i := q.n - nDrain + j
+      if id ≠ toString i then return "violated:messages_in_order"
+      if p ≠ strHex path then return "violated:transform_once_in_order"
+      if same ≠ "s" then return "violated:same_object"
+      let act := q.script.getD i 'd'
+      if st ≠ (if act = 'e' then "n" else "a") then return "violated:settle_reaches_inner"
+      if act = 'e' then nlN := nlN + 1 else nu := nu + 1
+    | _ => return "bad-op"
   let some ma := parseMetrics aS | return "bad-op"
   let some mb := parseMetrics bS | return "bad-op"
   if q.stack.any (· == .M) then
@@ -692,7 +721,7 @@ def monitorSub (q : SubReq) (obs : String) : String := Id.run do
     if metricCount mb "sub" lblAcked ≠ na + nu ∨ metricCount mb "sub" lblNacked ≠ nn + nlN ∨ famTotal mb "sub" ≠ na + nn + nu + nlN then
       return "violated:metrics_subscribe_once"
   else if !(ma ++ mb).isEmpty then return "violated:metrics_foreign_series"
-  if secs.length ≠ 6 then return "violated:liveness"     -- a quiesce-timeout marker and nothing more specific
+  if secs.length ≠ 7 then return "violated:liveness"     -- a quiesce-timeout marker and nothing more specific
   return "ok"
 
 def countChar (s : String) (c : Char) : Nat := (s.toList.filter (· = c)).length
